@@ -1115,3 +1115,7 @@ CORPUS += [
       "        # At the step that finishes the instance, we add the distance from the current_node to the depot as well\n        current_length = torch.where(\n            done & ~was_done,\n            current_length + get_distance(cur_loc, depot_loc),\n            current_length,\n        )\n\n        # We update the max_subtour_length and reset the current_length\n        max_subtour_length = torch.where(\n            current_length > td[\"max_subtour_length\"],\n            current_length,\n            td[\"max_subtour_length\"],\n        )\n",
       "        # We update the max_subtour_length and reset the current_length\n        max_subtour_length = torch.where(\n            current_length > td[\"max_subtour_length\"],\n            current_length,\n            td[\"max_subtour_length\"],\n        )\n\n        current_length = torch.where(\n            done & ~was_done,\n            current_length + get_distance(cur_loc, depot_loc),\n            current_length,\n        )\n", "C03.d"),
 ]
+
+
+# entries for the rules added after the third seeding round live in their own module (it appends to CORPUS)
+from . import corpus_r3  # noqa: E402,F401
